@@ -97,7 +97,8 @@ type c16Service struct {
 	EnvFiles    []c16EnvFile `json:"env_files"`
 	Labels      [][2]*string `json:"labels"`
 	LabelFiles  []string     `json:"label_files"`
-	YEnv        *c16YEnv     `json:"yenv,omitempty"` // whole loads: the YAML form of `environment`
+	YEnv        *c16YEnv     `json:"yenv,omitempty"`    // whole loads: the YAML form of `environment`
+	YLabels     *c16YEnv     `json:"ylabels,omitempty"` // whole loads: the YAML form of `labels` (sequence `k=v` / `k`, mapping `k: v` / `k:`); replaces Labels
 	ShortFiles  bool         `json:"short_files,omitempty"`
 }
 
@@ -108,6 +109,9 @@ type c16Args struct {
 	Discard                bool               `json:"discard"`
 	SkipNormalization      bool               `json:"skip_normalization,omitempty"`
 	SkipResolveEnvironment bool               `json:"skip_resolve_environment,omitempty"`
+	// Extra (c16.resolve): also run the second caller, Project.WithServicesEnabled, with and without a name, and on the
+	// already resolved project (`twice`)
+	Extra bool `json:"extra,omitempty"`
 }
 
 func sp(s string) *string { return &s }
@@ -293,7 +297,47 @@ func c16Observe(p *types.Project, root string) map[string]any {
 	return out
 }
 
-// both Project methods, each on the same fresh project and tree
+// c16Aliased reports a pair of keys of one resolved Environment that share their *string cell, or a cell shared with
+// the project the method was called on ("It returns a new Project instance … and keep the original Project unchanged").
+func c16Aliased(np, orig *types.Project) string {
+	old := map[*string]string{}
+	for name, s := range orig.Services {
+		for k, v := range s.Environment {
+			if v != nil {
+				old[v] = name + "." + k
+			}
+		}
+	}
+	for name, s := range np.Services {
+		seen := map[*string]string{}
+		for k, v := range s.Environment {
+			if v == nil {
+				continue
+			}
+			if o, ok := seen[v]; ok {
+				if o > k {
+					o, k = k, o
+				}
+				return "two keys of " + name + " share one cell: " + o + ", " + k
+			}
+			seen[v] = k
+			if o, ok := old[v]; ok {
+				return name + "." + k + " shares its cell with the input's " + o
+			}
+		}
+	}
+	return ""
+}
+
+func c16Outcome(np *types.Project, err error, root string) any {
+	if err != nil {
+		return map[string]any{"err": c16ErrClass(err)}
+	}
+	return map[string]any{"ok": c16Observe(np, root)}
+}
+
+// both Project methods, each on the same fresh project and tree; with Extra also the second caller of environment
+// resolution, Project.WithServicesEnabled.  Every call is followed by a look at its receiver: it must be unchanged.
 func c16RealResolve(raw json.RawMessage) any {
 	var a c16Args
 	if err := json.Unmarshal(raw, &a); err != nil {
@@ -305,21 +349,51 @@ func c16RealResolve(raw json.RawMessage) any {
 		return map[string]any{"bad": err.Error()}
 	}
 	out := map[string]any{}
-	for _, labels := range []bool{false, true} {
-		p := c16Project(a, root)
+	var mutated, aliased []string
+	legs := []string{"env", "labels"}
+	if a.Extra && len(a.Services) > 0 {
+		legs = append(legs, "enabled", "enabled_none", "twice")
+	}
+	var resolved *types.Project
+	for _, leg := range legs {
+		recv := c16Project(a, root)
+		if leg == "twice" {
+			if resolved == nil {
+				continue
+			}
+			recv = resolved
+		}
+		before, _ := json.Marshal(c16Observe(recv, root))
 		var np *types.Project
-		name := "env"
-		if labels {
-			name = "labels"
-			np, err = p.WithServicesLabelsResolved(a.Discard)
-		} else {
-			np, err = p.WithServicesEnvironmentResolved(a.Discard)
+		switch leg {
+		case "env":
+			np, err = recv.WithServicesEnvironmentResolved(a.Discard)
+			if err == nil {
+				resolved = np
+			}
+		case "labels":
+			np, err = recv.WithServicesLabelsResolved(a.Discard)
+		case "enabled", "twice":
+			np, err = recv.WithServicesEnabled(a.Services[0].Name)
+		case "enabled_none":
+			np, err = recv.WithServicesEnabled()
 		}
-		if err != nil {
-			out[name] = map[string]any{"err": c16ErrClass(err)}
-		} else {
-			out[name] = map[string]any{"ok": c16Observe(np, root)}
+		after, _ := json.Marshal(c16Observe(recv, root))
+		if !core.CanonEqual(before, after) {
+			mutated = append(mutated, leg)
 		}
+		if err == nil && leg != "labels" {
+			if what := c16Aliased(np, recv); what != "" {
+				aliased = append(aliased, leg+": "+what)
+			}
+		}
+		out[leg] = c16Outcome(np, err, root)
+	}
+	if mutated != nil {
+		out["mutated"] = mutated
+	}
+	if aliased != nil {
+		out["aliased"] = aliased
 	}
 	return out
 }
@@ -365,7 +439,31 @@ func c16Yaml(a c16Args) string {
 				}
 			}
 		}
-		if len(s.Labels) > 0 {
+		if s.YLabels != nil && s.YLabels.List != nil {
+			b.WriteString("    labels:\n")
+			for _, it := range *s.YLabels.List {
+				if it.V != nil {
+					b.WriteString("      - " + yq(it.K+"="+*it.V) + "\n")
+				} else {
+					b.WriteString("      - " + yq(it.K) + "\n")
+				}
+			}
+			if len(*s.YLabels.List) == 0 {
+				b.WriteString("      []\n")
+			}
+		} else if s.YLabels != nil && s.YLabels.Map != nil {
+			b.WriteString("    labels:\n")
+			for _, kv := range *s.YLabels.Map {
+				if kv[1] != nil {
+					b.WriteString("      " + yq(*kv[0]) + ": " + yq(*kv[1]) + "\n")
+				} else {
+					b.WriteString("      " + yq(*kv[0]) + ":\n")
+				}
+			}
+			if len(*s.YLabels.Map) == 0 {
+				b.WriteString("      {}\n")
+			}
+		} else if len(s.Labels) > 0 {
 			b.WriteString("    labels:\n")
 			for _, kv := range s.Labels {
 				b.WriteString("      " + yq(*kv[0]) + ": " + yq(*kv[1]) + "\n")
@@ -514,6 +612,25 @@ func (o c16OracleArgs) toArgs(discard bool) c16Args {
 			y.Map = &m
 		}
 		s.YEnv = y
+	}
+	if o.ListForm && len(o.Labels) > 0 {
+		// whole loads: `labels` in its sequence form, the first key once more in front as a bare element (the empty
+		// value) — the later `k=v` element must win (Labels.DecodeMapstructure; the Project methods are given o.Labels)
+		items := []c16Item{{K: *o.Labels[0][0]}}
+		for _, kv := range o.Labels {
+			if kv[1] == nil {
+				items = nil
+				break
+			}
+			if *kv[1] == "" {
+				items = append(items, c16Item{K: *kv[0]}) // the empty value, written as a bare element
+			} else {
+				items = append(items, c16Item{K: *kv[0], V: kv[1]})
+			}
+		}
+		if items != nil {
+			s.YLabels = &c16YEnv{List: &items}
+		}
 	}
 	a.Services = []c16Service{s, sib}
 	return a
@@ -871,10 +988,28 @@ func init() {
 			if json.Unmarshal(real, &r) != nil || json.Unmarshal(drv, &d) != nil || r["env"] == nil || d["env"] == nil {
 				return core.Disagree("malformed exchange: " + string(real) + " / " + string(drv))
 			}
-			if v := c16Corr("WithServicesEnvironmentResolved")(args, r["env"], d["env"]); v != nil {
-				return v
+			if m := r["mutated"]; m != nil {
+				return core.Fail("receiver-project-mutated:"+strings.Trim(string(m), "[]\""), "the method changed the project it was called on: "+string(m))
 			}
-			return c16Corr("WithServicesLabelsResolved")(args, r["labels"], d["labels"])
+			if m := r["aliased"]; m != nil {
+				var l []string
+				json.Unmarshal(m, &l)
+				leg, _, _ := strings.Cut(l[0], ":")
+				return core.Fail("environment-values-aliased:"+leg, "resolved environment values share storage: "+string(m))
+			}
+			for _, leg := range [][2]string{{"env", "WithServicesEnvironmentResolved"}, {"labels", "WithServicesLabelsResolved"},
+				{"enabled", "WithServicesEnabled(name)"}, {"enabled_none", "WithServicesEnabled()"}, {"twice", "WithServicesEnabled after WithServicesEnvironmentResolved"}} {
+				if r[leg[0]] == nil && d[leg[0]] == nil {
+					continue
+				}
+				if r[leg[0]] == nil || d[leg[0]] == nil {
+					return core.Disagree(leg[1] + ": run by one side only: " + string(real) + " / " + string(drv))
+				}
+				if v := c16Corr(leg[1])(args, r[leg[0]], d[leg[0]]); v != nil {
+					return v
+				}
+			}
+			return nil
 		}),
 	})
 	core.Register("c16.load", &core.CheckDef{
